@@ -52,7 +52,10 @@ func GetServerTLSConfig(serverConfig TLSConfig, logger log.Logger) (tlsConfig *t
 
 	tlsConfig = auth.NewEmptyTLSConfig()
 	if !serverConfig.SkipCAVerification {
-		tlsConfig.ClientAuth = tls.RequireAnyClientCert
+		// Require a client certificate and verify it against ClientCAs. (RequireAnyClientCert
+		// only asks for *some* certificate and leaves verification to VerifyPeerCertificate,
+		// which merely logs - a self-signed or expired certificate was accepted.)
+		tlsConfig.ClientAuth = tls.RequireAndVerifyClientCert
 		tlsConfig.ClientCAs, err = fetchCACert(serverConfig.RemoteCAPath)
 		if err != nil {
 			return nil, fmt.Errorf("failed to read CACert from %s: %w", serverConfig.RemoteCAPath, err)
